@@ -123,6 +123,11 @@ def run_filed(name, tier='quick', checks=None):
         rc, out = sh(['git', '-C', wt, 'apply', '--whitespace=nowarn',
                       os.path.join(d, 'patch.diff')])
         if rc:
+            # the tree has moved on since the defect was filed (later fix: commits touch the
+            # same file): merge the change in through the blobs named in the patch
+            rc, out = sh(['git', '-C', wt, 'apply', '--3way', '--whitespace=nowarn',
+                          os.path.join(d, 'patch.diff')])
+        if rc:
             return dict(name=name, error='patch does not apply (tree moved on): ' + out[-200:])
         res = []
         for c in (checks or [meta['property']]):
